@@ -100,7 +100,19 @@ class C10:
             features |= kinds
         else:
             consts = ["T", case["values"]]
-            tree = rm.template_code_tree(target, consts)
+            # distinct values in every integer field of the code header, so that a swapped / mis-sized field shows
+            k = sum(case["choices"][:3]) % 50 if case["choices"] else 0
+            nloc = 7 + k % 5
+            varnames = ["v%d" % i for i in range(nloc)]
+            extra = {"co_argcount": ["i", str(3 + k % 2)], "co_stacksize": ["i", str(11 + k)],
+                     "co_flags": ["i", str(0x43 + 0x100 * (k % 3))], "co_firstlineno": ["i", str(1000 + k * 13)]}
+            if vt >= (3, 0):
+                extra["co_kwonlyargcount"] = ["i", str(2 - k % 2)]
+            if vt >= (3, 8):
+                extra["co_posonlyargcount"] = ["i", str(1 + k % 2)]
+            tree = rm.template_code_tree(target, consts, varnames=varnames, extra=extra)
+            extra_cmp = dict(extra)
+            extra_cmp["co_nlocals"] = ["i", str(nloc)]
             try:
                 payload, feats = rm.encode(tree, target, case["choices"])
             except rm.Unencodable as e:
@@ -111,7 +123,7 @@ class C10:
                 features |= gv.kinds_in(v)
             oracle_v = COUSIN.get(target, target)
             if oracle_v != target:
-                tree2 = rm.template_code_tree(oracle_v, consts)
+                tree2 = rm.template_code_tree(oracle_v, consts, varnames=varnames, extra=extra)
                 payload2, _ = rm.encode(tree2, oracle_v, case["choices"],
                                         allow_refs=vt >= (3, 4))
                 # the stream must differ only in the fixed-width header ints
@@ -124,6 +136,7 @@ class C10:
             if r["tree"][0] != "C":
                 raise HarnessError("refmarshal stream did not load as code: %r" % (r["tree"][:1],))
             expected = r["tree"][1]["co_consts"]
+            expected_fields = dict((f, v) for f, v in r["tree"][1].items() if f in extra_cmp)
             intended = rm.strip_sharing(consts)
             kinds = set()
             for v in case["values"]:
@@ -142,10 +155,13 @@ class C10:
         x = rw.xd()
         fp = io.BytesIO(payload)
         sigbase = "C10|%s" % ("py2" if py2 else "py3")
+        got_fields = None
         try:
             co = x.unmarshal.load_code(fp, self.magic_for(target))
             got = rw.xcanon(co.co_consts, py2)
             consumed = fp.tell()
+            if enc == "ref":
+                got_fields = dict((f, rw.xcanon(getattr(co, f, None), py2)) for f in expected_fields)
         except Exception as e:
             tb = traceback.format_exc()
             res.fail("%s|exc|%s|%s" % (sigbase, type(e).__name__, xdis_frame(tb)),
@@ -161,6 +177,10 @@ class C10:
                          {"expected": cn.summary(expected, 400), "got": cn.summary(got, 400)})
             elif consumed != len(payload):
                 res.fail("%s|consumed" % sigbase, "payload %d bytes, consumed %d" % (len(payload), consumed))
+            if got_fields is not None and got_fields != expected_fields:
+                bad = sorted(f for f in expected_fields if got_fields.get(f) != expected_fields[f])
+                res.fail("%s|code-header-field|%s" % (sigbase, bad[0]), "target %s: code header fields differ: %s" % (
+                    target, ", ".join("%s: CPython %s, xdis %s" % (f, expected_fields[f], got_fields.get(f)) for f in bad)))
         nt = sorted(features & {"backref", "py2-stringref", "container>=256", "big", "dict", "D", "nonascii",
                                 "nonascii-text"} | set(f for f in features if f.startswith("backref")))
         res.nontrivial = bool(nt)
